@@ -19,8 +19,9 @@ use std::time::Duration;
 
 use futures_util::{FutureExt, StreamExt};
 use hickory_net::runtime::{Time, TokioRuntimeProvider};
-use hickory_net::xfer::{BufDnsStreamHandle, Protocol};
-use hickory_proto::op::{DnsResponse, Edns, Message, MessageType, OpCode, Query};
+use hickory_net::xfer::{BufDnsStreamHandle, DnsClientStream, DnsRequestSender, DnsResponseStream, Protocol, StreamReceiver};
+use hickory_net::{DnsMultiplexer, NetError};
+use hickory_proto::op::{DnsRequest, DnsRequestOptions, DnsResponse, Edns, Message, MessageType, OpCode, Query, SerialMessage};
 use hickory_proto::rr::rdata::tsig::{make_tsig_record, message_tbs, signed_bitmessage_to_buf, TsigAlgorithm, TsigError, TSIG};
 use hickory_proto::rr::rdata::{A, NS, SOA, TXT};
 use hickory_proto::rr::{DNSClass, LowerName, Name, RData, Record, RecordType, TSigResponseContext, TSigVerifier, TSigner};
@@ -656,6 +657,8 @@ struct Ctx {
     journal_path: std::path::PathBuf,
     /// the `begin vseq` … `end` block being executed
     vseq: std::cell::RefCell<Option<VSeq>>,
+    /// the recorded expansion of a `begin mseq` line is being skipped (replay)
+    skip_block: std::cell::Cell<bool>,
 }
 
 /// one real `TSigVerifier` fed a sequence of messages, and what the harness knows about it
@@ -953,6 +956,186 @@ fn exec_ssm(t: &[&str]) -> Option<CaseOut> {
     Some(CaseOut { line, out, fails: vec![], nontrivial, stats: vec!["ssm".into()] })
 }
 
+// ---- the real DnsMultiplexer on a scripted stream ------------------------------------------
+
+/// clock of the multiplexer's stream: `current_time()` = the shared virtual `NOW`, timeouts never fire
+#[derive(Clone, Copy)]
+struct MuxTime;
+
+#[async_trait::async_trait]
+impl Time for MuxTime {
+    async fn delay_for(_duration: Duration) {
+        std::future::pending::<()>().await
+    }
+    async fn timeout<F: 'static + Future + Send>(_duration: Duration, future: F) -> Result<F::Output, io::Error> {
+        Ok(future.await)
+    }
+    fn current_time() -> u64 {
+        NOW.load(Ordering::SeqCst)
+    }
+}
+
+struct Scripted {
+    inbox: Arc<std::sync::Mutex<std::collections::VecDeque<Vec<u8>>>>,
+    addr: SocketAddr,
+}
+
+impl futures_util::Stream for Scripted {
+    type Item = Result<SerialMessage, NetError>;
+    fn poll_next(self: std::pin::Pin<&mut Self>, _cx: &mut std::task::Context<'_>) -> std::task::Poll<Option<Self::Item>> {
+        match self.inbox.lock().unwrap().pop_front() {
+            Some(b) => std::task::Poll::Ready(Some(Ok(SerialMessage::new(b, self.addr)))),
+            None => std::task::Poll::Pending,
+        }
+    }
+}
+
+impl DnsClientStream for Scripted {
+    type Time = MuxTime;
+    fn name_server_addr(&self) -> SocketAddr {
+        self.addr
+    }
+}
+
+/// `begin mseq <signer> <request_time> <kinds>` (generator form) or the recorded form
+/// `begin mseq <signer> <reqmac> <request_time> <reqid> <kinds>`: ONE signed AXFR request sent through
+/// the real `DnsMultiplexer`, then a history of received messages for its id, each built against the
+/// chain state the code's contract defines (MAC and time of the last *authenticated* message):
+///   v valid next message of the chain      u unsigned            m valid but one MAC bit flipped
+///   k MAC made with another key            s signed, stale time   r replay of the last accepted message
+///   t valid but MAC truncated to half      (an unsigned message if nothing was accepted yet: r)
+/// After every message the multiplexer is polled and the caller's response stream is read.
+/// Contract (unchanged code): a message comes out `Ok` only if it verifies against that chain state;
+/// a failure is delivered as `Err`, leaves the verifier in place and never turns later messages into
+/// accepted ones.
+fn exec_mseq(t: &[&str]) -> Option<Vec<CaseOut>> {
+    let (sg, qt, kinds) = match t {
+        [_, _, sg, qt, kinds] => (*sg, *qt, *kinds),
+        [_, _, sg, _, qt, _, kinds] => (*sg, *qt, *kinds),
+        _ => return None,
+    };
+    let sg = SignerSpec::parse(sg)?;
+    let signer = sg.signer()?;
+    let qt: u64 = qt.parse().ok()?;
+    let kinds: Vec<&str> = kinds.split(',').collect();
+    let addr: SocketAddr = "192.0.2.53:53".parse().unwrap();
+    let inbox = Arc::new(std::sync::Mutex::new(std::collections::VecDeque::new()));
+    let (handle, mut out_rx): (BufDnsStreamHandle, StreamReceiver) = BufDnsStreamHandle::new(addr);
+    let mut mux = DnsMultiplexer::new(Scripted { inbox: inbox.clone(), addr }, handle).with_signer(signer);
+    NOW.store(qt, Ordering::SeqCst);
+    let mut resp: DnsResponseStream = mux.send_message(DnsRequest::new(axfr_msg(0), DnsRequestOptions::default()));
+    let sent = out_rx.next().now_or_never().flatten()?.into_parts().0;
+    let rq = ref_tsig(&sent)?;
+    let id = r16(&sent, 0)? as u16;
+    let reqmac = rq.mac.clone();
+    let mut outs = vec![CaseOut {
+        line: format!("begin mseq {} {} {} {} {}", sg.tok(false), hex(&reqmac), qt, id, kinds.join(",")),
+        out: "ok".into(),
+        fails: vec![],
+        nontrivial: false,
+        stats: vec![format!("mseq.len.{}", kinds.len())],
+    }];
+    let waker = futures_util::task::noop_waker();
+    let mut pcx = std::task::Context::from_waker(&waker);
+    // contract state
+    let (mut prev, mut rt, mut last_ok): (Vec<u8>, u64, Option<Vec<u8>>) = (reqmac.clone(), 0, None);
+    let mut failed_before = false;
+    for (pos, kind) in kinds.iter().enumerate() {
+        let first = rt == 0;
+        let base = chain_msg(id, pos as u32, 1 + (pos as u32 % 2));
+        let unsigned = || chain_msg(id, 100 + pos as u32, 2).to_vec().unwrap();
+        let buf: Vec<u8> = match *kind {
+            "v" => sign_chained(&base, &sg, &sg.keyid, &prev, qt, first)?.0,
+            "u" => unsigned(),
+            "m" => {
+                let mut b_ = sign_chained(&base, &sg, &sg.keyid, &prev, qt, first)?.0;
+                let r = ref_tsig(&b_)?;
+                let i = r.end - 6 - r.other.len() - 1;
+                b_[i] ^= 0x10;
+                b_
+            }
+            "k" => sign_chained(&base, &sg, "kx", &prev, qt, first)?.0,
+            "s" => sign_chained(&base, &sg, &sg.keyid, &prev, qt + sg.fudge as u64 + 50, first)?.0,
+            "r" => last_ok.clone().unwrap_or_else(unsigned),
+            "t" => {
+                let good = sign_chained(&base, &sg, &sg.keyid, &prev, qt, first)?.0;
+                let mut gm = Message::from_vec(&good).ok()?;
+                let sig = gm.take_signature()?;
+                let mut mac = sig.data.mac.clone();
+                mac.truncate(mac.len() / 2);
+                let name = sig.name.clone();
+                gm.set_signature(Box::new(make_tsig_record(name, sig.data.clone().set_mac(mac))));
+                gm.to_vec().ok()?
+            }
+            _ => return None,
+        };
+        let ok = rdok(&buf);
+        let pok = catch(|| DnsResponse::from_buffer(buf.clone()).is_ok()).unwrap_or(false);
+        let mok = macok_for(&sg, &buf, Some(&prev), first);
+        let (v, _) = ref_verify_ex(&buf, std::slice::from_ref(&sg), qt, Some(&prev), first);
+        let r = ref_tsig(&buf);
+        let authentic = pok && matches!(v, RefVerdict::Valid { .. }) && r.as_ref().is_some_and(|r| r.time >= rt);
+        // feed it, run the multiplexer, read the caller's stream
+        inbox.lock().unwrap().push_back(buf.clone());
+        let mut fails: Vec<(String, &'static str)> = vec![];
+        let polled = catch(|| {
+            let _ = mux.poll_next_unpin(&mut pcx);
+            let mut got = vec![];
+            while let std::task::Poll::Ready(Some(x)) = resp.poll_next_unpin(&mut pcx) {
+                got.push(x.is_ok());
+                if got.len() > 4 {
+                    break;
+                }
+            }
+            got
+        });
+        let mut stats = vec![format!("mmsg.kind.{kind}"), format!("mmsg.after-failure.{}", b(failed_before))];
+        let out = match polled {
+            Err(p) => panic_out(&p, "DnsMultiplexer::poll_next", &mut fails),
+            Ok(got) => {
+                if got.len() > 1 {
+                    fails.push((format!("{} items were delivered for one received message", got.len()), ""));
+                }
+                match got.first() {
+                    None => "drop".to_string(),
+                    Some(true) => {
+                        stats.push(format!("mmsg.delivered-ok.after-failure.{}", b(failed_before)));
+                        if !authentic {
+                            fails.push((
+                                format!("message {pos} (kind {kind}) of a history on a signed request was delivered as Ok although it does not verify against the chain ({v:?}; after an earlier failure: {failed_before})"),
+                                "",
+                            ));
+                        }
+                        match &r {
+                            Some(r) => format!("ok {} {}", hex(&r.mac), r.time),
+                            None => "ok ? ?".into(),
+                        }
+                    }
+                    Some(false) => {
+                        if authentic && matches!(v, RefVerdict::Valid { strict: true }) {
+                            fails.push((format!("the genuine next message of the chain (position {pos}) was delivered as an error"), ""));
+                        }
+                        "err".into()
+                    }
+                }
+            }
+        };
+        if authentic {
+            if let Some(r) = &r {
+                prev = r.mac.clone();
+                rt = r.time;
+                last_ok = Some(buf.clone());
+            }
+        } else {
+            failed_before = true;
+        }
+        let nontrivial = out.starts_with("ok") && failed_before;
+        outs.push(CaseOut { line: format!("mmsg {kind} {} {} {} {}", hex(&buf), b(ok), b(pok), b(mok)), out, fails, nontrivial, stats });
+    }
+    outs.push(CaseOut { line: "end".into(), out: "ok".into(), fails: vec![], nontrivial: false, stats: vec![] });
+    Some(outs)
+}
+
 /// `bigxfr <extra records> <udp|tcp> <edns payload|0>` — implementation-vs-oracle only (`~`): a signed
 /// AXFR of a zone with many records; if the reply carries a MAC it must verify with the verifier
 /// the client kept, whatever the size limit did to the message.
@@ -1025,8 +1208,51 @@ fn exec_bigxfr(t: &[&str], cx: &Ctx) -> Option<CaseOut> {
     Some(CaseOut { line, out: "~".into(), fails, nontrivial: true, stats })
 }
 
+fn record(c: CaseOut, op: &str, rec: &mut Recorder) {
+    if c.out == "~" {
+        rec.impl_only += 1;
+    }
+    let idx = rec.case(c.line, c.out);
+    rec.stat(&format!("op.{op}"));
+    for s in c.stats {
+        rec.stat(&s);
+    }
+    if c.nontrivial {
+        rec.nontrivial(idx);
+    }
+    for (what, class) in c.fails {
+        rec.fail(idx, what, class);
+    }
+}
+
 fn exec(line: &str, rec: &mut Recorder, cx: &Ctx) {
     let t: Vec<&str> = line.split_whitespace().collect();
+    // a multiplexer history: one input line (`begin mseq …`) expands into a recorded block
+    if t.len() >= 5 && t[0] == "begin" && t[1] == "mseq" {
+        match catch(|| exec_mseq(&t)) {
+            Ok(Some(cs)) => {
+                cx.skip_block.set(true);
+                for c in cs {
+                    let op = c.line.split(' ').next().unwrap_or("").to_string();
+                    record(c, &op, rec);
+                }
+            }
+            Ok(None) => rec.stat("skipped.unparsable-case"),
+            Err(p) => {
+                let idx = rec.case(line.to_string(), format!("panic {p}"));
+                rec.fail(idx, format!("harness panic: {p}"), "");
+            }
+        }
+        return;
+    }
+    if t.first() == Some(&"mmsg") {
+        // replayed expansion of a `begin mseq` line: the history was re-run as a whole
+        return;
+    }
+    if t.first() == Some(&"end") && cx.skip_block.get() && cx.vseq.borrow().is_none() {
+        cx.skip_block.set(false);
+        return;
+    }
     let r = catch(|| match t.first().copied() {
         Some("tbs") => exec_tbs(&t),
         Some("vmb") => exec_vmb(&t),
@@ -1041,22 +1267,7 @@ fn exec(line: &str, rec: &mut Recorder, cx: &Ctx) {
         _ => None,
     });
     match r {
-        Ok(Some(c)) => {
-            if c.out == "~" {
-                rec.impl_only += 1;
-            }
-            let idx = rec.case(c.line, c.out);
-            rec.stat(&format!("op.{}", t[0]));
-            for s in c.stats {
-                rec.stat(&s);
-            }
-            if c.nontrivial {
-                rec.nontrivial(idx);
-            }
-            for (what, class) in c.fails {
-                rec.fail(idx, what, class);
-            }
-        }
+        Ok(Some(c)) => record(c, t[0], rec),
         Ok(None) => rec.stat("skipped.unparsable-case"),
         Err(p) => {
             let idx = rec.case(line.to_string(), format!("panic {p}"));
@@ -1328,6 +1539,7 @@ pub fn run(o: &Opts, rec: &mut Recorder) {
         rt: tokio::runtime::Builder::new_current_thread().enable_all().build().unwrap(),
         journal_path: o.out.join("c13-journal.sqlite"),
         vseq: std::cell::RefCell::new(None),
+        skip_block: std::cell::Cell::new(false),
     };
     for l in &o.pre_lines {
         exec(l, rec, &cx);
@@ -1710,6 +1922,31 @@ pub fn run(o: &Opts, rec: &mut Recorder) {
                 g.run(format!("vmsg {} ? ? ?", hex(&mb)));
             }
             g.run("end".to_string());
+        }
+    }
+
+    // ---- (4d) histories on one request id through the real DnsMultiplexer ---------------------
+    {
+        const KINDS: [&str; 7] = ["v", "u", "m", "k", "s", "r", "t"];
+        let mut serial = 0usize;
+        for len in 2..=5usize {
+            let total = 7usize.pow(len as u32);
+            // quick: every history of length 2..4, a seeded sample of length 5; thorough: all
+            let take_all = len < 5 || thorough;
+            let n = if take_all { total } else { o.n(5000, total) };
+            for j in 0..n {
+                let mut code = if take_all { j } else { g.rng.below(total as u64) as usize };
+                let ks: Vec<&str> = (0..len)
+                    .map(|_| {
+                        let k = KINDS[code % 7];
+                        code /= 7;
+                        k
+                    })
+                    .collect();
+                let signer = if serial % 2 == 0 { &a } else { &bq };
+                serial += 1;
+                g.run(format!("begin mseq {} {} {}", signer.tok(false), T0, ks.join(",")));
+            }
         }
     }
 
